@@ -60,6 +60,9 @@ type RuleCfg struct {
 	Preset bool        `json:"preset"` // "php" preset instead of ext/split/index
 	Env    [][2]string `json:"env"`
 	Except string      `json:"except,omitempty"`
+	// Before: another fastcgi rule is written first, for the whole site and another extension (.pl, to a
+	// backend nobody listens on); its base path matches every request, its split string none of ours
+	Before bool `json:"before,omitempty"`
 }
 
 type Req struct {
@@ -87,6 +90,9 @@ func casketfile(c *Case, dir string) string {
 	}
 	var sb strings.Builder
 	fmt.Fprintf(&sb, "http://localhost:0 {\n\troot %s\n\terrors %s/errors.log\n", root, dir)
+	if c.Rule.Before {
+		sb.WriteString("\tfastcgi / 127.0.0.1:9 {\n\t\text .pl\n\t\tsplit .pl\n\t}\n")
+	}
 	if c.Rule.Preset && len(c.Rule.Env) == 0 && c.Rule.Except == "" {
 		fmt.Fprintf(&sb, "\tfastcgi /app %s php\n", addr)
 	} else {
@@ -442,7 +448,9 @@ func clipS(s string) string {
 
 // ---------------------------------------------------------------------------
 
-var targets = []string{"/app/info.php", "/app/info.php/extra/path", "/app/info.PHP", "/app/INFO.php", "/app/info.pHp/x", "/app/info.php?a=1&b=c%20d", "/app/", "/app/sub/", "/app/other.php", "/app/dir.php/file.php/z", "/app/info.php.", "/app/info.php%20", "/app/info.php%20.%20", "/app/x.php?", "/app/%C3%A9.php/%C3%A9", "/app/a%20b.php/c%2Fd", "/app/style.css", "/app/static/x.php", "/APP/info.php", "/app/info.php/", "/app/%C4%B0.php/x", "/app/%C8%BA%C8%BA%C8%BA%C8%BA.php", "/app/%E2%84%AA.php/pi", "/app/%C4%B0%C4%B0.php", "/app/%E2%84%AA%E2%84%AA%E2%84%AA.php/a.php"}
+var targets = []string{"/app/info.php", "/app/info.php/extra/path", "/app/info.PHP", "/app/INFO.php", "/app/info.pHp/x", "/app/info.php?a=1&b=c%20d", "/app/", "/app/sub/", "/app/other.php", "/app/dir.php/file.php/z", "/app/info.php.", "/app/info.php%20", "/app/info.php%20.%20", "/app/x.php?", "/app/%C3%A9.php/%C3%A9", "/app/a%20b.php/c%2Fd", "/app/style.css", "/app/static/x.php", "/APP/info.php", "/app/info.php/", "/app/%C4%B0.php/x", "/app/%C8%BA%C8%BA%C8%BA%C8%BA.php", "/app/%E2%84%AA.php/pi", "/app/%C4%B0%C4%B0.php", "/app/%E2%84%AA%E2%84%AA%E2%84%AA.php/a.php",
+	// letters whose lower-case forms are shorter and longer in UTF-8, on both sides of the split string
+	"/app/%C4%B0.php/%C8%BA", "/app/%C8%BA.php/%C4%B0", "/app/%C4%B0%C8%BA.php/%C8%BA%C4%B0", "/app/%C8%BA%C4%B0.php/x/%C4%B0"}
 
 func nameOfLen(n int, seed int) string {
 	b := []byte("X-")
@@ -557,6 +565,7 @@ func genCase(t *rapid.T) *Case {
 	c := &Case{}
 	c.Rule.TCP = rapid.IntRange(0, 3).Draw(t, "tcp") == 0
 	c.Rule.Preset = rapid.Bool().Draw(t, "preset")
+	c.Rule.Before = rapid.IntRange(0, 2).Draw(t, "before") == 0
 	if rapid.Bool().Draw(t, "env") {
 		c.Rule.Env = [][2]string{{"CUSTOM_A", "val-{method}"}, {"CUSTOM_B", "literal value"}}
 	}
